@@ -66,6 +66,7 @@ def run(ctx):
                 "register function/knob tasks, load, refresh/verify/cleanup), each ended by a comparison with a fresh manager loaded with "
                 "the surviving definitions (queries + 3 follow-up assignments); non-trivial = a definition was replaced or removed; "
                 "distinct by op list")
+    ctx.scale_if_changed()
     proof_ok = vlib.standard_proof_part(ctx, "props/C03.v", extra_targets=["run/RunManager.vo"])
     cases = CORPUS + gen_cases(ctx, ctx.pick(250, 4000))
     obs = mc.run_impl_cases(cases)
